@@ -17,7 +17,8 @@ FUNCS = {
     "C03": ["io_utf16Length"],
     "C12": ["socket_makeHeader", "socket_parseHeader", "udp_makeHeader", "udp_parseHeader", "ws_makeHeader", "ws_parseHeader"],
     "C13": ["socket_makeHeader", "socket_parseHeader", "udp_makeHeader", "udp_parseHeader"],
-    "C18": ["lb_gcd"],
+    "C16": ["cluster_getIndex"],
+    "C18": ["lb_gcd", "rr_getIndex"],
 }
 
 EDGES31 = [0, 1, 2, 127, 128, 255, 256, 65535, 65536, 2**24 - 1, 2**24, 2**27 - 1, 2**27, 2**27 + 5, 2**30, 2**31 - 2, 2**31 - 1]
@@ -59,6 +60,11 @@ def gen_cases(ctx, funcs):
             strs += [e, e[:-1], e[1:], e + b"\x80", b"A" + e]
         for s in strs:
             add(f="io_utf16Length", h=s.hex())
+    for gf in ("cluster_getIndex", "rr_getIndex"):
+        if gf in funcs:
+            for n in (-1, 0, 1, 2, 3, 5, 8, 1000):
+                for idx in (-1, 0, 1, 2, 3, 4, 6, 7, 8, 998, 999, 1000, 2**40):
+                    add(f=gf, x=idx, y=n)           # x: the cell before the call, y: n
     if "lb_gcd" in funcs:
         vals = [0, 1, 2, 3, 4, 6, 9, 12, 18, 35, 64, 97, 1000, 2**31 - 1, 2**62, 2**63 - 1]
         for x in vals:
@@ -85,6 +91,10 @@ def coq_term(c):
         return "one (io_utf16Length %s)" % blist(c["h"])
     if f == "lb_gcd":
         return "one (lb_gcd 200 (%d) (%d))" % (c["x"], c["y"])
+    if f == "cluster_getIndex":
+        return "two (cluster_getIndex (%d) (%d))" % (c["x"], c["y"])
+    if f == "rr_getIndex":
+        return "two (rr_getIndex (%d) (%d))" % (c["y"], c["x"])
     raise KeyError(f)
 
 
@@ -96,6 +106,7 @@ Definition tri (r : gres (Z * Z * bool)) : list Z :=
   match r with GRet (l, i, ok) => [l; i; if ok then 1 else 0] | GPanic => [-999] | GFuel => [-998] end.
 Definition duo (r : gres (Z * bool)) : list Z :=
   match r with GRet (i, ok) => [i; if ok then 1 else 0] | GPanic => [-999] | GFuel => [-998] end.
+Definition two (r : gres (Z * Z)) : list Z := match r with GRet (a, b) => [a; b] | GPanic => [-999] | GFuel => [-998] end.
 Definition one (r : gres Z) : list Z := match r with GRet z => [z] | GPanic => [-999] | GFuel => [-998] end.
 """
 
@@ -198,6 +209,15 @@ def run(ctx):
             if g != [want]:
                 ctx.report("utf16length-wrong", "utf16Length(%r) = %s; a strict UTF-8 decoder gives %d (-1 = not UTF-8)"
                            % (bytes.fromhex(c["h"]), g, want), {"case": c, "go": g, "want": want, "failing_input": True})
+                break
+        elif f in ("cluster_getIndex", "rr_getIndex"):
+            idx, n = c["x"], c["y"]
+            # the property's reading: one more than the cursor while that stays below n, else back to 0; n <= 1: always 0
+            want = ([idx + 1, idx + 1] if idx + 1 < n else [0, 0]) if n > 1 else [0, idx]
+            if g != want:
+                ctx.report("getindex-wrong:" + f, "%s with the cursor at %d and n = %d returned %s and left the cursor at %s; "
+                           "expected (returned, cursor) = %s" % (f, idx, n, g[:1], g[1:], want),
+                           {"case": c, "go": g, "want": want, "failing_input": True})
                 break
         elif f == "lb_gcd":
             if g != [math.gcd(c["x"], c["y"])]:
